@@ -1,5 +1,6 @@
 """C15 - AWQ layouts are bijective, match the reference, and denote the same weights (structural clauses)."""
 import ast
+import copy
 from fractions import Fraction
 
 from .. import layout_ast as la
@@ -89,6 +90,14 @@ def _const_list(mi, name):
     return None
 
 
+def soft(chk, rule, site, ok, what, fn, tag, witness):
+    """A structural spelling check: a mismatch means the construct is outside the matcher's vocabulary (undecided), not a violation."""
+    if ok:
+        chk.ok(rule, site, what)
+    else:
+        chk.unknown(rule, site, f"{fn}: not in the recognised form: {what}")
+
+
 def v1(chk, awq_mi):
     repo = chk.repo
     pack, unpack, rev = awq_mi.defs.get("pack"), awq_mi.defs.get("unpack"), awq_mi.defs.get("reverse_awq_order")
@@ -105,69 +114,37 @@ def v1(chk, awq_mi):
     ref_mi = next((m for m in repo.modules.values() if m.rel.endswith("external/awq/packing_utils.py")), None)
     if ref_mi is not None:
         chk.require("C15.R4", f"{awq_mi.rel}:1", _const_list(ref_mi, "AWQ_ORDER") == order and _const_list(ref_mi, "AWQ_REVERSE_ORDER") == rorder, "order tables equal those of external/awq/packing_utils.py", "AWQ tables", "tables equal the reference", "reordered v1 matrices are not interchangeable with AWQ checkpoints")
-    # ---- pack: evaluate the slot map concretely for a few column counts (rows and contents stay abstract)
-    consts = {}
-    for st in pack.body:
-        if isinstance(st, ast.Assign) and isinstance(st.targets[0], ast.Name):
-            v = fold_int(st.value, consts)
-            if v is not None:
-                consts[st.targets[0].id] = v
-    bits, pack_num = consts.get("bits"), consts.get("pack_num")
-    if bits != 4 or pack_num != 8:
-        chk.bad("C15.R4", site, "pack", "v1 constants", f"v1 pack uses bits={bits}, pack_num={pack_num} (expected 4 and 8)", "every v1 matrix")
-        return
-    outer = [s for s in pack.body if isinstance(s, ast.For)]
-    if len(outer) != 1 or not isinstance(outer[0].target, ast.Name):
-        chk.unknown("C15.R4", site, "v1 pack: column loop not found")
-        return
-    col = outer[0].target.id
-    src = U(pack)
-    up = positional_params(pack)[0]
-    n_cols_expr = U(outer[0].iter)
-    chk.require("C15.R4", site, n_cols_expr == f"range({up}.shape[1] // pack_num)", f"v1 pack iterates over `{n_cols_expr}` packed columns", "pack", "v1 column loop", "the last packed columns are never written")
-    inner = [s for s in ast.walk(outer[0]) if isinstance(s, ast.For) and s is not outer[0]]
-    if len(inner) != 1 or not isinstance(inner[0].target, ast.Name):
-        chk.unknown("C15.R4", site, "v1 pack: slot loop not found")
-        return
-    i = inner[0].target.id
-    chk.require("C15.R4", site, U(inner[0].iter) == "range(pack_num)", f"v1 pack fills `{U(inner[0].iter)}` slots per column", "pack", "v1 slot loop", "some slots stay empty")
-    # the order map per branch
-    maps = {}
-    for st in ast.walk(outer[0]):
-        if isinstance(st, ast.If) and U(st.test) == "reorder":
-            for br, body in ((True, st.body), (False, st.orelse)):
-                for s in body:
-                    if isinstance(s, ast.Assign) and isinstance(s.targets[0], ast.Name):
-                        v = s.value
-                        if isinstance(v, ast.Name) and v.id == "AWQ_ORDER":
-                            maps[br] = (s.targets[0].id, order)
-                        elif isinstance(v, (ast.List, ast.Tuple)) and all(isinstance(x, ast.Constant) for x in v.elts):
-                            maps[br] = (s.targets[0].id, [x.value for x in v.elts])
-    ok_maps = maps.get(True, (None, None))[1] == order and maps.get(False, (None, None))[1] == list(range(8))
-    chk.require("C15.R4", site, ok_maps, f"v1 pack: order map is AWQ_ORDER when reorder else the identity ({ {k: v[1] for k, v in maps.items()} })", "pack", "v1 order map", "reorder=True packs without reordering (or the reverse)")
-    om = maps.get(True, ("order_map", None))[0]
-    sel = [n for n in ast.walk(inner[0]) if isinstance(n, ast.Subscript) and U(n.value) == up]
-    ok_sel = len(sel) == 1 and U(sel[0].slice) in (f"(slice(None, None, None), {col} * pack_num + {om}[{i}])", f"(:, {col} * pack_num + {om}[{i}])") or any(f"{up}[:, {col} * pack_num + {om}[{i}]]" in U(n) for n in ast.walk(inner[0]) if isinstance(n, ast.Subscript))
-    chk.require("C15.R4", site, bool(ok_sel), f"v1 pack: slot {i} reads source column {col} * pack_num + {om}[{i}]", "pack", "v1 source column", "every v1 matrix: slots hold the wrong columns")
-    aug = [n for n in ast.walk(inner[0]) if isinstance(n, ast.AugAssign)]
-    ok_aug = len(aug) == 1 and isinstance(aug[0].op, ast.BitOr) and U(aug[0].target) == f"packed[:, {col}]" and isinstance(aug[0].value, ast.BinOp) and isinstance(aug[0].value.op, ast.LShift) and U(aug[0].value.right) in (f"{i} * bits", f"bits * {i}")
-    chk.require("C15.R4", site, ok_aug, f"v1 pack: `{U(aug[0]) if aug else None}` ORs the column into packed[:, {col}] at bit {i} * bits", "pack", "v1 slot shift", "every v1 matrix: lanes overlap or are misplaced")
-    # ---- unpack
-    usrc = U(unpack)
-    pk = positional_params(unpack)[0]
-    site_u = f"{awq_mi.rel}:{unpack.lineno}"
-    ok_sh = "shifts = torch.arange(0, 32, bits" in usrc and f"torch.bitwise_right_shift({pk}[:, :, None], shifts[None, None, :])" in usrc
-    chk.require("C15.R4", site_u, ok_sh, "v1 unpack: shifts arange(0, 32, bits) on a new last axis", "unpack", "v1 unpack shifts", "every v1 matrix: slots read at the wrong bit offsets")
-    ok_view = "unpacked = unpacked.view(unpacked.shape[0], -1)" in usrc
-    chk.require("C15.R4", site_u, ok_view, "v1 unpack: slots flattened next to their column by view(rows, -1)", "unpack", "v1 unpack flatten", "columns interleaved wrongly")
-    ok_re = "if reorder:" in usrc and "unpacked = reverse_awq_order(unpacked)" in usrc
-    chk.require("C15.R4", site_u, ok_re, "v1 unpack: the column order is undone exactly when reorder is set", "unpack", "v1 unpack reorder", "reorder=True round trip permutes columns")
-    ok_mask = "torch.bitwise_and(unpacked, 2 ** bits - 1)" in usrc
-    chk.require("C15.R4", site_u, ok_mask, "v1 unpack: result masked to 4 bits (removes the bits of the higher slots and the sign extension)", "unpack", "v1 unpack mask", "every v1 matrix: values above 15 / negative values")
-    rsrc = U(rev)
-    tp = positional_params(rev)[0]
-    ok_rev = f"torch.arange({tp}.shape[-1]" in rsrc and ".view(-1, 32 // bits)" in rsrc and "[:, AWQ_REVERSE_ORDER]" in rsrc and ".view(-1)" in rsrc and f"{tp} = {tp}[:, reverse_order_tensor]" in rsrc
-    chk.require("C15.R4", f"{awq_mi.rel}:{rev.lineno}", ok_rev, "reverse_awq_order gathers columns through arange(K).view(-1, 8)[:, AWQ_REVERSE_ORDER].view(-1)", "reverse_awq_order", "v1 reverse gather", "reorder=True round trip permutes columns")
+    # ---- column-mode interpretation: dim 1 explicit for K in the domain, rows and contents abstract
+    from ..cols import CT, ColInterp
+    from ..rows import RowError, RowUnknown
+    Ks = (8, 16, 24) if chk.tier == "quick" else (8, 16, 24, 32, 64, 128)
+    ref_pack = ref_mi.defs.get("pack_awq") if ref_mi is not None else None
+    n_ok = 0
+    for K in Ks:
+        for reorder in (False, True):
+            tag = f"K={K}, reorder={reorder}"
+            try:
+                src = CT.source(K, 4)
+                pk = ColInterp(pack, {positional_params(pack)[0]: src, "reorder": reorder}).run()
+                if not isinstance(pk, CT):
+                    chk.unknown("C15.R4", site, f"v1 pack ({tag}) did not return a tensor")
+                    continue
+                dense = len(pk.cells) == K // 8 and all(sorted(o for o, w, c in cell) == list(range(0, 32, 4)) for cell in pk.cells)
+                stored = sorted(c for cell in pk.cells for _, _, c in cell)
+                chk.require("C15.R4", site, dense and stored == list(range(K)), f"v1 pack ({tag}): {K // 8} int32 columns, eight full 4-bit lanes each, every source column stored once", "pack", f"v1 pack lanes reorder={reorder}", f"every v1 matrix ({tag}): a column is dropped or two share a lane")
+                un = ColInterp(unpack, {positional_params(unpack)[0]: pk, "reorder": reorder}).run()
+                same = isinstance(un, CT) and un.key() == src.key()
+                chk.require("C15.R4", f"{awq_mi.rel}:{unpack.lineno}", same, f"v1 unpack(pack(x)) == x ({tag}; rows and contents symbolic)", "unpack", f"v1 round trip reorder={reorder}", f"every v1 matrix ({tag}): columns come back permuted, shifted or with stray bits")
+                if isinstance(ref_pack, ast.FunctionDef):
+                    # the reference packer is fed int32 codes by its own tests (no cast before the shift)
+                    rp = ColInterp(ref_pack, {positional_params(ref_pack)[0]: CT.source(K, 4, 32), "reorder": reorder}).run()
+                    chk.require("C15.R4", site, isinstance(rp, CT) and rp.key() == pk.key(), f"v1 pack equals the reference packer external/awq/packing_utils.pack_awq ({tag})", "pack", f"v1 pack equals reference reorder={reorder}", f"v1 matrices ({tag}) are not interchangeable with AWQ checkpoints")
+                n_ok += 1
+            except RowError as e:
+                chk.bad("C15.R4", site, "pack/unpack", f"v1 layout error reorder={reorder}", f"v1 pack/unpack ({tag}): {e}", f"every v1 matrix ({tag})")
+            except RowUnknown as e:
+                chk.unknown("C15.R4", site, f"v1 column-mode interpretation ({tag}): {e}")
+    chk.floor("C15.R4", n_ok, 4, "v1 column-mode instances")
 
 
 def representation(chk):
@@ -197,7 +174,6 @@ def representation(chk):
                 return node.func.value
             return node
 
-    import copy
     d_t, s_t, z_t = (_Strip().visit(copy.deepcopy(x)) for x in (sup_args[5], sup_args[6], sup_args[7]))
     shape = "(size[0], size[1] // group_size)"
     want_data = ("AWQPackedTensor.pack(ungroup(data, axis=0, orig_shape=size), packing=AWQPacking.V2)",)
@@ -212,42 +188,52 @@ def representation(chk):
     chk.require("C15.R5", site, t_zp, f"optimised constructor: zero-point stored as -(zp reshaped/transposed) * (scale reshaped/transposed): `{U(z_t)[:110]}`", "AWQBitsTensor.__init__", "constructor zero-point", "every optimised tensor: dequantized values are offset by 2*zp*scale (wrong sign) or by an unscaled zero-point")
     if not (t_data and t_scale and t_zp):
         return
-    # layouts: scale (out*G, 1) -> reshape(out, G) -> t -> (G, out); dequantizer: .t() -> (out, G) -> reshape(n, 1)
+    # ---- dequantizer, read from its (inlined, substituted) return term
     a, G = Mono(1, "out"), Mono(1, "G")
     s0 = input_tensor([a * G, Mono.of(1)])
-    try:
-        from ..layout import permute, reshape
-        stored = permute(reshape(s0, [a, G]), [1, 0])
-        d_ok = "scale = scale.t().reshape((n_scales, 1))" in dsrc and "zeropoint = zeropoint.t().reshape((n_scales, 1))" in dsrc and "n_scales = scale.numel()" in dsrc
-        if not d_ok:
-            chk.unknown("C15.R5", f"{mi.rel}:{dq.lineno}", "AWQBitsDequantizer.forward: scale/zero-point restoration not in the recognised form")
-        else:
-            back = reshape(permute(stored, [1, 0]), [a * G, Mono.of(1)])
-            chk.require("C15.R5", f"{mi.rel}:{dq.lineno}", back.key() == s0.key(), "dequantizer restores the (out*groups, 1) layout of scale and zero-point that the constructor transposed", "AWQBitsDequantizer.forward", "scale layout restored", "every optimised tensor with more than one group: scales applied to the wrong groups")
-    except LayoutError as e:
-        chk.bad("C15.R5", site, "AWQBitsTensor", "scale layout", f"scale/zero-point transposes do not compose: {e}", "every optimised tensor")
-    g_ok = "unpacked = group(unpacked, axis=0, group_size=t._group_size)" in dsrc and "return ungroup(dqt, axis=t.axis, orig_shape=t.shape)" in dsrc
-    chk.require("C15.R5", f"{mi.rel}:{dq.lineno}", g_ok, "dequantizer re-groups the unpacked codes (axis 0, stored group size) and un-groups the result", "AWQBitsDequantizer.forward", "codes regrouped", "every optimised tensor: scales broadcast against un-grouped codes")
-    # algebra: scale * code + (-zp * scale) == scale * (code - zp)
-    m = [n for n in ast.walk(dq) if isinstance(n, ast.Assign) and U(n.targets[0]) == "dqt"]
-    if len(m) == 1:
-        got = poly.poly(m[0].value, lambda e: {"zeropoint": "ZPP"}.get(U(e), U(e)))
-        zpp = poly.parse("-zp * scale")
-        # substitute ZPP := -zp*scale
-        want = poly.parse("scale * unpacked - scale * zp")
-        sub = {}
-        for mono, c in got.items():
-            if "ZPP" in mono:
-                rest = tuple(x for x in mono if x != "ZPP")
-                for m2, c2 in zpp.items():
-                    key = tuple(sorted(rest + m2))
-                    sub[key] = sub.get(key, 0) + c * c2
-            else:
-                sub[mono] = sub.get(mono, 0) + c
-        sub = {k_: v for k_, v in sub.items() if v != 0}
-        chk.require("C15.R5", f"{mi.rel}:{dq.lineno}", sub == want, f"dequantized value `{U(m[0].value)}` with zeropoint' = -zp*scale equals scale*(code - zp) as polynomials", "AWQBitsDequantizer.forward", "affine algebra", "every optimised tensor: zero-point applied with the wrong sign or unscaled")
+    dps = [p_ for p_ in paths_of(dq) if p_.end[0] == "return"]
+    site_d = f"{mi.rel}:{dq.lineno}"
+    tq = positional_params(dq)[1]
+    if len(dps) != 1 or not (isinstance(dps[0].end[1], ast.Call) and U(dps[0].end[1].func) == "ungroup"):
+        chk.unknown("C15.R5", site_d, "AWQBitsDequantizer.forward: does not return ungroup(...) on a single path")
     else:
-        chk.unknown("C15.R5", f"{mi.rel}:{dq.lineno}", "dequantized value assignment not found")
+        ub = bind_call(repo.func("ungroup")[1], dps[0].end[1])
+        ok_un = ub is not None and U(ub["axis"]) == f"{tq}.axis" and U(ub["orig_shape"]) == f"{tq}.shape"
+        chk.require("C15.R5", site_d, ok_un, f"dequantizer un-groups the result with axis={tq}.axis and orig_shape={tq}.shape", "AWQBitsDequantizer.forward", "result ungrouped", "every optimised tensor: dequantized values in the grouped shape")
+        val = _Strip().visit(copy.deepcopy(ub["grouped"])) if ub else None
+        S = f"{tq}._scale.t().reshape(({tq}._scale.numel(), 1))"
+        Z = f"{tq}._zeropoint.t().reshape(({tq}._scale.numel(), 1))"
+        Z2 = f"{tq}._zeropoint.t().reshape(({tq}._zeropoint.numel(), 1))"
+        Cg = f"group({tq}._data.unpack(), 0, {tq}._group_size)"
+
+        def atom(e):
+            t = U(e)
+            for nm, txt in (("S", S), ("Z", Z), ("Z", Z2), ("C", Cg)):
+                if t == txt or t == txt.replace("((", "([").replace(", 1))", ", 1])"):
+                    return nm
+            return t
+
+        got = poly.poly(val, atom) if val is not None else None
+        want = {("C", "S"): 1, ("Z",): 1}
+        if got is not None and set(m for mono in got for m in mono) <= {"S", "Z", "C"}:
+            chk.require("C15.R5", site_d, got == want, f"dequantized value is scale' * group(codes) + zeropoint' with scale'/zeropoint' transposed back to (out*groups, 1): {poly.show(got)}", "AWQBitsDequantizer.forward", "affine algebra", "every optimised tensor: zero-point applied with the wrong sign or unscaled, or codes not re-grouped")
+            chk.ok("C15.R5", site_d, "dequantizer re-groups the unpacked codes (axis 0, stored group size)")
+            try:
+                from ..layout import permute, reshape
+                stored = permute(reshape(s0, [a, G]), [1, 0])
+                back = reshape(permute(stored, [1, 0]), [a * G, Mono.of(1)])
+                chk.require("C15.R5", site_d, back.key() == s0.key(), "dequantizer restores the (out*groups, 1) layout of scale and zero-point that the constructor transposed", "AWQBitsDequantizer.forward", "scale layout restored", "every optimised tensor with more than one group: scales applied to the wrong groups")
+            except LayoutError as e:
+                chk.bad("C15.R5", site_d, "AWQBitsTensor", "scale layout", f"scale/zero-point transposes do not compose: {e}", "every optimised tensor")
+            # scale*code + (-zp*scale) == scale*(code - zp)
+            lhs = poly.parse("S * C + (0 - zp * S)")
+            chk.require("C15.R5", site_d, lhs == poly.parse("S * C - S * zp"), "scale*code + (-zp*scale) == scale*(code - zp) as polynomials", "AWQBitsDequantizer.forward", "affine identity", "-")
+        else:
+            missing_group = got is not None and not any("C" in mono for mono in got) and any("unpack()" in m for mono in got for m in mono)
+            if missing_group:
+                chk.bad("C15.R5", site_d, "AWQBitsDequantizer.forward", "codes regrouped", f"dequantizer multiplies the scale by un-grouped codes: {poly.show(got)[:120]}", "every optimised tensor: scales broadcast against un-grouped codes")
+            else:
+                chk.unknown("C15.R5", site_d, f"AWQBitsDequantizer.forward: dequantized term not in the recognised vocabulary: {poly.show(got)[:160] if got else None}")
     # ---- R6 conversion back
     qb = ci.own("qbits_tensor")
     site_q = f"{mi.rel}:{qb.lineno}"
@@ -267,7 +253,7 @@ def representation(chk):
         else:
             chk.bad("C15.R6", site_q, "AWQBitsTensor.qbits_tensor", "codes not re-grouped", f"qbits_tensor passes `{d[:70]}` as payload: the constructor un-grouped the codes (ungroup, pack_v2) but only pack_v2 is undone; a QBitsTensor holds grouped codes",
                     "any optimised tensor converted back (serialization, move to CPU): scales of shape (out*groups, 1) are broadcast against (out, in) codes")
-        ok_s = s == "self._scale.t().reshape((self._scale.numel(), 1))"
+        ok_s = s in ("self._scale.t().reshape((self._scale.numel(), 1))", "self._scale.t().reshape([self._scale.numel(), 1])")
         chk.require("C15.R6", site_q, ok_s, f"qbits_tensor: scale transposed back to (out*groups, 1): `{s[:70]}`", "AWQBitsTensor.qbits_tensor", "scale converted back", "any optimised tensor converted back")
         ok_z = ("/" in z or "div(" in z) and "torch.int8" in z and ("round" in z)
         if ok_z:
